@@ -1,0 +1,62 @@
+//go:build verif
+
+// Contracts for stored values (C13): what each setter writes, what each getter reads, field-checker frames.
+// Bucket content model: bktHas/bktVal/bktSub (see /verif/spec/trusted/bbolt.contract). Comments only.
+package boltz
+
+// fcUpd(fc, field): the field checker selects the field
+//@ spec fcUpd(fc Int, field Str) Bool
+//@ func (FieldChecker).IsUpdated
+//@   pure
+//@   ensures result == fcUpd(self, arg0)
+
+// a write goes ahead only if no error is pending and the checker (if any) selects the field
+//@ func (*TypedBucket).ProceedWithSet
+//@   props C13
+//@   assume bucket.ErrorHolderImpl != nil
+//@   pure
+//@   ensures[proceed-iff] result == (bucket.Err == nil && (checker == nil || fcUpd(checker, name)))
+
+// setTyped: the value stored under name is the tag byte followed by the bytes; nil is the tag TypeNil alone
+//@ spec nilEnc() Str
+//@ axiom nilEnc_def: (and (= (str_len nilEnc) 1) (= (str_at nilEnc 0) 5))
+//@ func (*TypedBucket).setTyped
+//@   props C13
+//@   assume bucket.ErrorHolderImpl != nil && bucket.Bucket != nil
+//@   requires[no-pending-error] bucket.Err == nil
+//@   modifies bucket.Err, bktHas[bucket.Bucket], bktVal[bucket.Bucket]
+//@   ensures[written] bucket.Err == nil ==> bktHas[bucket.Bucket] == sto(old(bktHas[bucket.Bucket]), name, true) && bktVal[bucket.Bucket] == sto(old(bktVal[bucket.Bucket]), name, ite(fieldType == TypeNil || value == nil, nilEnc(), prepend(fieldType, str(value))))
+//@   ensures[failed-atomically] bucket.Err != nil ==> bktHas[bucket.Bucket] == old(bktHas[bucket.Bucket]) && bktVal[bucket.Bucket] == old(bktVal[bucket.Bucket])
+//@ func (*TypedBucket).SetNil
+//@   props C13
+//@   assume bucket.ErrorHolderImpl != nil && bucket.Bucket != nil
+//@   modifies bucket.Err, bktHas[bucket.Bucket], bktVal[bucket.Bucket]
+//@   ensures[skipped] old(bucket.Err) != nil ==> bucket.Err == old(bucket.Err) && bktHas[bucket.Bucket] == old(bktHas[bucket.Bucket]) && bktVal[bucket.Bucket] == old(bktVal[bucket.Bucket])
+//@   ensures[written] old(bucket.Err) == nil && bucket.Err == nil ==> bktHas[bucket.Bucket] == sto(old(bktHas[bucket.Bucket]), name, true) && bktVal[bucket.Bucket] == sto(old(bktVal[bucket.Bucket]), name, nilEnc())
+//@   ensures[failed-atomically] old(bucket.Err) == nil && bucket.Err != nil ==> bktHas[bucket.Bucket] == old(bktHas[bucket.Bucket]) && bktVal[bucket.Bucket] == old(bktVal[bucket.Bucket])
+
+// getTyped: (tag, value) of what is stored under name; (TypeNil, nil) if nothing is, or if there is no bucket
+//@ func (*TypedBucket).getTyped
+//@   props C13
+//@   pure
+//@   ensures[no-bucket] bucket.Bucket == nil ==> result0 == TypeNil && result1 == nil
+//@   ensures[absent] bucket.Bucket != nil && !(bktHas[bucket.Bucket][name] && bktSub[bucket.Bucket][name] == 0) ==> result0 == TypeNil && result1 == nil
+//@   ensures[present] bucket.Bucket != nil && bktHas[bucket.Bucket][name] && bktSub[bucket.Bucket][name] == 0 && str_len(bktVal[bucket.Bucket][name]) > 0 ==> result0 == tagOf(bktVal[bucket.Bucket][name]) && (str_len(bktVal[bucket.Bucket][name]) > 1 ==> result1 != nil && str(result1) == untag(bktVal[bucket.Bucket][name])) && (str_len(bktVal[bucket.Bucket][name]) == 1 ==> result1 == nil)
+
+// string
+//@ func (*TypedBucket).SetString
+//@   props C13
+//@   assume bucket.ErrorHolderImpl != nil && bucket.Bucket != nil
+//@   modifies bucket.Err, bktHas[bucket.Bucket], bktVal[bucket.Bucket]
+//@   ensures result == bucket
+//@   ensures[skipped] !(old(bucket.Err) == nil && (fieldChecker == nil || fcUpd(fieldChecker, name))) ==> bucket.Err == old(bucket.Err) && bktHas[bucket.Bucket] == old(bktHas[bucket.Bucket]) && bktVal[bucket.Bucket] == old(bktVal[bucket.Bucket])
+//@   ensures[written] old(bucket.Err) == nil && (fieldChecker == nil || fcUpd(fieldChecker, name)) && bucket.Err == nil ==> bktHas[bucket.Bucket] == sto(old(bktHas[bucket.Bucket]), name, true) && bktVal[bucket.Bucket] == sto(old(bktVal[bucket.Bucket]), name, prepend(TypeString, value))
+//@   ensures[failed-atomically] old(bucket.Err) == nil && bucket.Err != nil ==> bktHas[bucket.Bucket] == old(bktHas[bucket.Bucket]) && bktVal[bucket.Bucket] == old(bktVal[bucket.Bucket])
+//@ func (*TypedBucket).SetStringP
+//@   props C13
+//@   assume bucket.ErrorHolderImpl != nil && bucket.Bucket != nil
+//@   modifies bucket.Err, bktHas[bucket.Bucket], bktVal[bucket.Bucket]
+//@   ensures result == bucket
+//@   ensures[skipped] !(old(bucket.Err) == nil && (fieldChecker == nil || fcUpd(fieldChecker, name))) ==> bucket.Err == old(bucket.Err) && bktHas[bucket.Bucket] == old(bktHas[bucket.Bucket]) && bktVal[bucket.Bucket] == old(bktVal[bucket.Bucket])
+//@   ensures[written] old(bucket.Err) == nil && (fieldChecker == nil || fcUpd(fieldChecker, name)) && bucket.Err == nil ==> bktHas[bucket.Bucket] == sto(old(bktHas[bucket.Bucket]), name, true) && bktVal[bucket.Bucket] == sto(old(bktVal[bucket.Bucket]), name, ite(value == nil, nilEnc(), prepend(TypeString, *value)))
+//@   ensures[failed-atomically] old(bucket.Err) == nil && bucket.Err != nil ==> bktHas[bucket.Bucket] == old(bktHas[bucket.Bucket]) && bktVal[bucket.Bucket] == old(bktVal[bucket.Bucket])
